@@ -570,13 +570,29 @@ Definition dump_file (depth : nat) (w : world) (f : fid) : option (list (path * 
   | _ => None
   end.
 
-(** one observation of a world: for each file the raw tree, the listing, and is_cooler on the probes *)
-Definition observe (depth : nat) (probes : list path) (w : world) :=
-  map (fun f => (dump_file depth w f, list_coolers w f, map (is_cooler w f) probes)) [FA; FB].
+(** light form of a dump: kinds, identities and the format attribute only *)
+Definition light_entry (e : dentry) : dentry :=
+  match e with
+  | DG o a => DG o (filter (fun kv => Coq.Strings.String.eqb (fst kv) "format"%string) a)
+  | DD o _ => DD o (PInts [])
+  | x => x
+  end.
+Definition light (d : option (list (path * dentry))) : option (list (path * dentry)) :=
+  match d with
+  | Some l => Some (map (fun pe => (fst pe, light_entry (snd pe))) l)
+  | None => None
+  end.
 
-(** run a history, observing after every step *)
-Fixpoint trace (depth : nat) (probes : list path) (w : world) (ops : list op) :=
+(** one observation of a world: for each file the raw tree, the listing, and is_cooler on the probes *)
+Definition observe (probes : list path) (w : world) :=
+  map (fun f => (light (dump_file 3 w f), list_coolers w f, map (is_cooler w f) probes)) [FA; FB].
+
+(** run a history, observing after every step; the full dump of both files at the end *)
+Fixpoint trace_steps (probes : list path) (w : world) (ops : list op) :=
   match ops with
   | [] => []
-  | o :: r => let '(e, w1) := step w o in (e, observe depth probes w1) :: trace depth probes w1 r
+  | o :: r => let '(e, w1) := step w o in (e, observe probes w1) :: trace_steps probes w1 r
   end.
+Definition trace (probes : list path) (ops : list op) :=
+  (trace_steps probes world0 ops,
+   map (fun f => dump_file 5 (run world0 ops) f) [FA; FB]).
